@@ -32,6 +32,14 @@ CHECKS = {
          "All strings of <=2 (quick) / <=3 (thorough) class representatives (classes recomputed from the current SEN tables) plus the reserved family, as top-level value, array element, member value and member key, numbers and small trees, through every SEN writer entry point and option vector; sen.Parse of the text must give back an equal tree (strings stay strings, keys exact).",
          "Trusted: byte-class partition; a fresh sen.Parser per case; numbers by value.",
          "DESIGN.md §3 C10", "core"),
+ "C11": (EX, "bounded-exhaustive enumeration of path expressions x documents x data representations; every evaluator compared with Get on the same data and Get compared across representations",
+         "Every sequence of <=2 (quick) / <=3 (thorough) fragments of the shared path alphabet on every document of the corpus, held as simple data, gen nodes, typed slices, Go arrays, struct values, pointers to structs and user Keyed/Indexed collections (all key orders): Has, First/FirstFound, Locate (with every max), Expr.Walk, GetNodes and FirstNode are compared with Get on the same representation (membership, order where defined, normalised paths whose own Get yields the element, locations equal to pathref's), and Get is compared across representations. Failing cases are shrunk and keyed by (evaluator, fragment, representation class, position, bound class, discrepancy).",
+         "Trusted: Get is the reference (C05 checks Get itself); pathref for locations; order only where no multi-member object or descent is involved; failures consistent with the two implemented readings named in known_findings.txt are keyed as those findings, everything else keeps its own cell.",
+         "DESIGN.md §3 C11", "core"),
+ "C13": (EX, "bounded-exhaustive enumeration of (path, document, operation, value / modifier) on simple and gen data against a frame-condition oracle built from pathref's selection",
+         "Every sequence of <=2 (quick) / <=3 (thorough) fragments x every document x Set/SetOne/Del/DelOne/Remove/RemoveOne/Modify/ModifyOne (and Must variants) x 5 replacement values x 5 modifier functions on simple and gen data: the selection is the pathref reading that agrees with Get on the before-state; afterwards every location outside it is unchanged, every selected location holds the new value / is gone, *One forms change at most one location, Set creates only along child/index paths, impossible requests return errors, nothing panics, simple and gen agree.",
+         "Trusted: pathref + scriptref and Get on the before-state; creation cases judged by a weaker oracle; nested selections accepted in any visiting order; failures that are exactly the inclusive slice reading (pathref.Variant.Inclusive) are keyed as that one finding.",
+         "DESIGN.md §3 C13", "core"),
  "C12": (EX, "exhaustive operator x operand-kind x operand-kind matrix and bounded logic trees against a three-valued reference evaluator",
          "Every operator x left operand x right operand (constants and @-paths, simple and gen data, missing / single / multi-valued paths), built through the constructors and by parsing the text, plus every &&/||/! tree up to depth 2 (quick) / 3 (thorough) on an element corpus; result must equal the reference, never panic, and Script.Match must equal filter membership.",
          "Trusted: scriptref (answers 'any' where the documentation leaves the result open); operator list read from the code.",
